@@ -246,6 +246,12 @@ def run(ctx):
                'the mapping explanation examines next(iter(pith.items())): the first key and its value, as the generated '
                'code does', reads == ['the checked object.items()'] and [k for k, w in log if k == 'item'] == ['item'],
                f'reads {[(k, w) for k, w in log if k != "len"]}')
+        if 'Counter' in tag:
+            explained = [w for k, w in log if k == 'child-cause']
+            ctx.ob('C03.R3', f'resample:mapping:counter-values-against-int:{tag}', mmod.where(finder.node),
+                   'the counts of a Counter are explained against int, as the generated code checks them (Counter[K] has no value hint '
+                   'of its own)', any('value' in p_ and "'int'" in h_ for p_, h_ in explained),
+                   f'child causes built for {explained}')
     ctx.require(n_map >= 2, 'no mapping cause finder was interpreted')
     ctx.assume('a mapping\'s items() view is consistent with its __iter__ and __getitem__ (first key / its value)')
     # literal: explanation consults all literals
